@@ -132,14 +132,17 @@ func newTripleSpace(thorough bool) *tripleSpace {
 	}
 	sp.repl = replacementStrings()
 	sp.names = []string{"variant", "keyscalar", "keytorsion", "keyenc", "nonce", "Rtorsion", "Renc", "msg", "Spert", "siglen", "keyrepl", "Rrepl"}
-	sp.sizes = []int{3, len(sp.ka), 8, 4, len(sp.kr), 8, 4, sp.nmsg, len(spertNames), len(sigLens), 1 + len(sp.repl), 1 + len(sp.repl)}
+	sp.sizes = []int{len(vSpace), len(sp.ka), 8, 4, len(sp.kr), 8, 4, sp.nmsg, len(spertNames), len(sigLens), 1 + len(sp.repl), 1 + len(sp.repl)}
 	return sp
 }
 
 // build returns the triple for vector v; ok = false if the vector is redundant (encoding index
 // beyond the number of encodings of the point).
+// variant alphabet of the triple space: pure, ctx "c", ph "", and the maximum-length contexts
+var vSpace = []variantSpec{vPure, vCtx, vPh, {ref.Ctx, strings.Repeat("m", 254) + "x"}, {ref.Ph, strings.Repeat("m", 254) + "y"}}
+
 func (sp *tripleSpace) build(v []int) (t triple, vs variantSpec, ok bool) {
-	vs = vAll[v[0]]
+	vs = vSpace[v[0]]
 	a, r := sp.ka[v[1]], sp.kr[v[4]]
 	var EA, ER []byte
 	aEff, rEff := a, r
